@@ -68,7 +68,7 @@ Section Static.
     match e with
     | ELit _ _ | ELitF _ _ | EVar _ => true
     | EParen a | ENeg a | ENot a | ECast _ a => float_mod_free a
-    | EArith Mod a b => float_mod_free a && float_mod_free b && match ety a with Some (TF _) => false | _ => true end
+    | EArith AMod a b => float_mod_free a && float_mod_free b && match ety a with Some (TF _) => false | _ => true end
     | EPow a b | EArith _ a b | ECmp _ a b | EAnd a b | EOr a b => float_mod_free a && float_mod_free b
     end.
 
@@ -93,7 +93,7 @@ Section Static.
     | SDecl i _ e | SAssign i e => sflags_expr (nth_error tys i) e
     | SCompound i op e =>
         sflags_expr (nth_error tys i) e ++
-        flag (match op, nth_error tys i with Mod, Some (TF _) => true | _, _ => false end) TgFloatMod
+        flag (match op, nth_error tys i with AMod, Some (TF _) => true | _, _ => false end) TgFloatMod
     | SIf c th el => sflags_cond c ++ sflags_block th ++ sflags_els el
     | SReturn e => sflags_expr None e
     end
@@ -115,13 +115,13 @@ Definition narrow (t : ity) : bool := bits t <? 32.
 (* integer arithmetic at type t on values a b *)
 Definition arith_flags (t : ity) (op : arith) (a b : Z) : list tag :=
   match op with
-  | Add => flag (narrow t && negb (in_range t (a + b))) TgNarrowOverflow
-  | Sub => flag (narrow t && negb (in_range t (a - b))) TgNarrowOverflow
-  | Mul => flag (narrow t && negb (in_range t (a * b))) TgNarrowOverflow
-  | Div => if b =? 0 then []
+  | AAdd => flag (narrow t && negb (in_range t (a + b))) TgNarrowOverflow
+  | ASub => flag (narrow t && negb (in_range t (a - b))) TgNarrowOverflow
+  | AMul => flag (narrow t && negb (in_range t (a * b))) TgNarrowOverflow
+  | ADiv => if b =? 0 then []
            else if in_range t (Z.quot a b) then []
            else if narrow t then [TgNarrowOverflow] else [TgSignedDivOverflow]
-  | Mod => []
+  | AMod => []
   end.
 
 Definition cast_flags_int (from to : ity) (z : Z) : list tag :=
